@@ -78,6 +78,13 @@ PROPS = {
                         'a str is determined by its characters (axiom_str_ext)',
                         'NOT covered: Display/FromStr/serde impls of TraceId and SpanId (same two std calls behind fmt::Formatter / serde plumbing, which Verus cannot take)'],
     },
+    'C19': {
+        'verus': [('jconv', '*'), ('dconv', '*')],
+        'kani': [],
+        'assumptions': ['string conversions (Cow<str>::to_string, &Cow as &str) keep the characters (cow_str); collecting (key, value) pairs into a HashMap keeps, per key, the last value (props_to_meta); [("name", event.name)].iter().chain(props) yields that pair followed by the properties (name_then_props; the literal "name" is checked)',
+                        'NOT decided: the OpenTelemetry reporter (convert / map_events build opaque opentelemetry_sdk types), serialisation to Thrift compact / msgpack / OTLP and their well-formedness (thrift_codec, rmp_serde, opentelemetry exporters are trusted), HTTP / UDP transport',
+                        'exactly-once per batch for Jaeger additionally needs C20 (datagram splitting)'],
+    },
     'C20': {
         'verus': [('jaeger', '*')],
         'kani': [],
@@ -119,9 +126,9 @@ PROPS = {
     },
     'C14': {
         'verus': [],
-        'kani': ['stream_in_span_last_call', 'stream_in_span_item_call', 'sink_in_span_close', 'sink_in_span_send', 'local_parent_guard_scope'],
+        'kani': ['stream_in_span_last_call', 'stream_in_span_item_call', 'sink_in_span_close', 'sink_in_span_send', 'sink_in_span_flush', 'sink_in_span_ready', 'local_parent_guard_scope'],
         'assumptions': [KANI_ENV, 'K7: fastrace-futures/src/lib.rs is compiled inside the fastrace crate with the Stream/Sink traits re-declared (futures 0.3 signatures) instead of linking futures-core/futures-sink',
-                        'per-call contract, complete per call; poll_ready / poll_flush have the same two-line body as start_send (guard + delegate) and are covered by the start_send harness only by similarity -- listed as not separately verified'],
+                        'per-call contract, complete per call'],
     },
     'C04': {
         'verus': [('spsc', ['Sender::force_send', 'Sender::send', 'bounded', 'Receiver::try_recv']), ('coll', [H])],
